@@ -8,7 +8,7 @@ from beziers.affinetransformation import AffineTransformation
 
 ID = "C09"
 TOPICS = ["Affine", "Eval"]
-LEAN_TARGETS = ["BezierVerif.Props.C09"]
+LEAN_TARGETS = ["BezierVerif.Props.C09", "BezierVerif.Props.C05"]   # C05 holds aligned_ends / aligned_y_zero_iff (the alignment clause)
 TV_DEFS = ["point_transformed", "at_apply", "at_apply_backwards", "at_translation", "at_scaling2", "at_scaling1",
            "at_reflection", "at_rotation", "at_translate", "at_scale2", "at_reflect", "at_rotate", "at_invert",
            "line_transformed", "quad_transformed", "cubic_transformed", "cubic_translated", "quad_translated",
@@ -165,6 +165,18 @@ def check_align(pts):
         return "aligning does not send the start to the origin: %r" % al.start
     if abs(al.end.y) > tol or abs(al.end.x - chord) > tol:
         return "aligning does not send the end to (chord length, 0): %r vs %r" % (al.end, chord)
+    # ... by a rigid motion: every control point goes to R(p - start), R the rotation taking the chord onto the positive x axis
+    cx, cy = (pts[-1][0] - pts[0][0]) / chord, (pts[-1][1] - pts[0][1]) / chord
+    for j, (q, a) in enumerate(zip(pts, al.points)):
+        dx, dy = q[0] - pts[0][0], q[1] - pts[0][1]
+        ex, ey = cx * dx + cy * dy, -cy * dx + cx * dy
+        if abs(a.x - ex) > 10 * tol or abs(a.y - ey) > 10 * tol:
+            return "aligning is not the rigid motion taking the chord onto the positive x axis: control point %d goes to %r, expected (%r, %r)" % (j, a, ex, ey)
+    m = seg.alignmentTransformation()
+    from beziers.point import Point
+    e = Point(pts[-1][0], pts[-1][1]).transformed(m)
+    if abs(e.y) > tol or abs(e.x - chord) > tol:
+        return "alignmentTransformation does not send the end to (chord length, 0): %r vs %r" % (e, chord)
     return None
 
 
@@ -237,7 +249,7 @@ def search(ctx, budget):
             inp = {"p": p, "c": c, "th": rng.choice([0.0, math.pi / 2, math.pi, rng.uniform(-7, 7)])}
             kind = "rotate"
         elif r < 9:
-            pts = oc.rand_seg_pts(rng, 2 + i % 3, rng.choice(["int", "float", "grid", "collinear"]))
+            pts = oc.rand_seg_pts(rng, 2 + i % 3, rng.choice(["int", "float", "grid", "collinear", "axischord", "axischord", "retracted", "arch"]))
             if pts[0] == pts[-1]:
                 continue
             inp = {"pts": pts}
